@@ -1,80 +1,137 @@
 -------------------------------- MODULE RefCount --------------------------------
-(* C12 - reference-counted sharing (Array, Map, HashMap, Shared<T>, SmartObject classes) under every interleaving
-   of the library's atomic steps.
+(* C12 - reference-counted sharing (Array, Map, HashMap, Shared<T>, SmartObject classes, Var containers) under every
+   interleaving of the library's atomic steps.
 
    Objects carry one counter (two for HashMap: the node counter _rc and the bucket array's own counter); threads
-   own handle slots and run programs of copy / drop / assign on their *own* handles; every handle operation is the
+   own handle slots and run programs of handle operations on their *own* handles; every handle operation is the
    sequence of atomic increments/decrements the library performs for that type (Micro below), each followed by the
    local action that depends on its result (free / clear when the counter reaches zero).  A step of thread t is
    "perform the atomic operation t is parked at, then run up to just before t's next atomic operation" - the
    granularity of the deterministic scheduler (harness/common/vsched.h).  Programs are chosen nondeterministically,
    so TLC explores all programs (up to MaxOps operations per thread) x all interleavings.
 
-   Properties: an object stays alive (and its payload undestroyed) while any handle refers to it; the payload is
-   destroyed exactly once; no atomic operation ever touches a freed object; at quiescence every counter equals
-   the number of handles.                                                                                        *)
+   Counting disciplines (Type):
+     "array"    Array, Map, Dic, Stack, Queue, Array2 (all hold one Array block): copy = inc; destroy = dec, free at 0;
+                assign = release old (dec), then reference new (inc); `a = a` is a no-op.
+     "hashmap"  HashMap, HashDic, Set: the same with two counters per object (node counter guards the payload).
+     "shared"   Shared<T>: assign = reference new, then release old; nothing at all if both refer to the same object.
+     "smart"    ASL_SMART_CLASS handles: assign = reference new, then release old, also for the same object and `a = a`.
+     "var"      Var holding an array or an object (Dic): the Var owns a heap Array/Dic handle, so copy = inc, destroy = dec;
+                assign = copy the source first (inc), then release the old container (dec), also for the same container.
+                Containers hold Vars, i.e. embedded handles (Shape): the thread whose decrement reaches zero destroys the
+                elements - one more decrement per embedded handle, recursively - and frees the block afterwards.
+   (String and string-typed Vars own their buffer: copies are deep, nothing is shared, so they are outside this module.
+   Xml nodes count with a plain int - not an atomic step - and are therefore not shareable between threads.)
+
+   Beyond copy / drop / assign the Shared<T> / SmartObject API is covered by optional operation kinds (Ext):
+     "self"   assignment of a handle to itself;
+     "null"   null handles (default constructed Shared<T>, SmartObject class from a null pointer, Var()): created, copied,
+              assigned from and to, dropped - none of which may touch a counter;
+     "conv"   `as<Derived>()` followed by the converting copy Derived -> Base: a temporary handle is created (inc),
+              copied into the target (inc) and dropped (dec); `as<Other>()` on an object of another class yields a null
+              handle (which is then converted as well);
+     "clone"  a new object with its own counter: the creator holds its only handle (a SmartObject class takes that
+              reference with an atomic increment from 0, Shared<T> starts at 1).
+
+   Properties: an object stays alive (and its payload undestroyed) while any handle refers to it - a handle embedded in
+   a live container counts; the payload is destroyed exactly once; no atomic operation ever touches a freed object or one
+   whose destruction has begun; at quiescence every counter equals the number of handles and an object is freed iff
+   no handle is left (so the last dropper of a container destroys the whole subtree, exactly once).                 *)
 EXTENDS Naturals, Sequences, FiniteSets, TLC, Json
 
-CONSTANTS Type,      \* "array" | "smart" | "shared" | "hashmap"
+CONSTANTS Type,      \* "array" | "smart" | "shared" | "hashmap" | "var"
           NT,        \* worker threads 1..NT
           NO,        \* objects 1..NO
           NS,        \* handle slots per thread
-          MaxOps     \* operations per thread
+          MaxOps,    \* operations per thread
+          NB,        \* objects 1..NB exist initially (every thread starts with one handle to each); the others are clones
+          Shape,     \* "flat" | "chain" (object o holds a handle to o+1) | "tree" (object 1 holds handles to 2..NB)
+          Ext        \* subset of {"self", "null", "conv", "clone"}
 
 T == 1..NT
 O == 1..NO
+Null == NO + 1                                \* slot value of a null handle (0 = no handle object at all)
 K == IF Type = "hashmap" THEN 2 ELSE 1       \* counters per object; counter 1 guards the storage block
 PayloadK == K                                 \* the counter whose zero destroys the payload (hashmap: node counter 2)
 
-VARIABLES cnt, alive, dtor, uaf, slots, phase, micro, pend, nops, hist
-vars == <<cnt, alive, dtor, uaf, slots, phase, micro, pend, nops, hist>>
+Kids(o) == IF Shape = "chain" /\ o < NB THEN <<o + 1>>
+           ELSE IF Shape = "tree" /\ o = 1 THEN [i \in 1..(NB - 1) |-> i + 1]
+           ELSE <<>>
+SeqSet(q) == {q[i] : i \in 1..Len(q)}
+Parents(o) == {p \in 1..NB : o \in SeqSet(Kids(p))}
 
-IncAll(o) == IF Type = "hashmap" THEN << <<"inc", o, 1>>, <<"inc", o, 2>> >> ELSE << <<"inc", o, 1>> >>
-DecAll(o) == IF Type = "hashmap" THEN << <<"dec", o, 2>>, <<"dec", o, 1>> >> ELSE << <<"dec", o, 1>> >>
+VARIABLES cnt, st, dtor, uaf, slots, phase, micro, pend, nops, resv, hist
+vars == <<cnt, st, dtor, uaf, slots, phase, micro, pend, nops, resv, hist>>
+
+\* a micro step is <<kind, object, counter, blocks to free once this decrement (and what it triggers) is done>>
+IncAll(o) == IF Type = "hashmap" THEN << <<"inc", o, 1, <<>> >>, <<"inc", o, 2, <<>> >> >> ELSE << <<"inc", o, 1, <<>> >> >>
+DecAll(o) == IF Type = "hashmap" THEN << <<"dec", o, 2, <<>> >>, <<"dec", o, 1, <<>> >> >> ELSE << <<"dec", o, 1, <<>> >> >>
+IncH(x) == IF x \in O THEN IncAll(x) ELSE <<>>
+DecH(x) == IF x \in O THEN DecAll(x) ELSE <<>>
+NewFirst == Type \in {"shared", "smart", "var"}           \* assignment references the new object before releasing the old
 Micro(op, sl) ==
-   IF op.k = "copy" THEN IncAll(sl[op.i])
-   ELSE IF op.k = "drop" THEN DecAll(sl[op.i])
-   ELSE IF Type = "shared" THEN IncAll(sl[op.j]) \o DecAll(sl[op.i])      \* Shared<T>::operator= : ref new, unref old
-   ELSE DecAll(sl[op.i]) \o IncAll(sl[op.j])                               \* Array/HashMap/SmartObject: release old, ref new
+   IF op.k = "copy" THEN IncH(sl[op.i])
+   ELSE IF op.k = "conv" THEN IncH(sl[op.i]) \o IncH(sl[op.i]) \o DecH(sl[op.i])
+   ELSE IF op.k = "drop" THEN DecH(sl[op.i])
+   ELSE IF op.k \in {"asnull", "mknull"} THEN <<>>
+   ELSE IF op.k = "clone" THEN (IF Type = "smart" THEN << <<"inc", op.o, 1, <<>> >> >> ELSE <<>>)
+   ELSE IF op.i = op.j THEN (IF Type \in {"smart", "var"} THEN IncH(sl[op.i]) \o DecH(sl[op.i]) ELSE <<>>)
+   ELSE IF Type = "shared" /\ sl[op.i] = sl[op.j] THEN <<>>
+   ELSE IF NewFirst THEN IncH(sl[op.j]) \o DecH(sl[op.i])
+   ELSE DecH(sl[op.i]) \o IncH(sl[op.j])
 
-\* operations a thread may start on its own slots sl
-Ops == [k : {"copy", "drop", "assign"}, i : 1..NS, j : 0..NS]
-ValidOps(sl) == {op \in Ops :
-    IF op.k = "copy" THEN sl[op.i] # 0 /\ op.j # 0 /\ sl[op.j] = 0
-    ELSE IF op.k = "drop" THEN sl[op.i] # 0 /\ op.j = 0
-    ELSE /\ sl[op.i] # 0 /\ op.j # 0 /\ op.j # op.i /\ sl[op.j] # 0
-         \* Shared<T>::operator= between handles of the same object has no atomic step: not a schedule point
-         /\ (Type = "shared" => sl[op.i] # sl[op.j]) }
+\* the lowest object that does not exist yet and that no other thread is about to create
+Unborn == {o \in O : st[o] = "unborn" /\ o \notin resv}
+Fresh == IF Unborn = {} THEN 0 ELSE CHOOSE o \in Unborn : \A p \in Unborn : o <= p
 
-InitSlots == [s \in 1..NS |-> IF s <= NO THEN s ELSE 0]         \* every thread starts with one handle per object
+\* operations a thread may start on its own slots sl.  i, j = slots; o = the value the target slot holds afterwards
+OpsOn(sl) ==
+   {[k |-> "copy", i |-> i, j |-> j, o |-> sl[i]] : i \in 1..NS, j \in 1..NS}
+   \cup {[k |-> "conv", i |-> i, j |-> j, o |-> sl[i]] : i \in 1..NS, j \in 1..NS}
+   \cup {[k |-> "asnull", i |-> i, j |-> j, o |-> Null] : i \in 1..NS, j \in 1..NS}
+   \cup {[k |-> "clone", i |-> i, j |-> j, o |-> Fresh] : i \in 1..NS, j \in 1..NS}
+   \cup {[k |-> "assign", i |-> i, j |-> j, o |-> sl[j]] : i \in 1..NS, j \in 1..NS}
+   \cup {[k |-> "drop", i |-> i, j |-> 0, o |-> 0] : i \in 1..NS}
+   \cup {[k |-> "mknull", i |-> i, j |-> 0, o |-> Null] : i \in 1..NS}
+ValidOps(sl) == {op \in OpsOn(sl) :
+    /\ IF op.k = "copy" THEN sl[op.i] # 0 /\ op.j # op.i /\ sl[op.j] = 0
+       ELSE IF op.k = "conv" THEN "conv" \in Ext /\ sl[op.i] \in O /\ op.j # op.i /\ sl[op.j] = 0
+       ELSE IF op.k = "asnull" THEN "conv" \in Ext /\ "null" \in Ext /\ sl[op.i] \in O /\ op.j # op.i /\ sl[op.j] = 0
+       ELSE IF op.k = "clone" THEN "clone" \in Ext /\ sl[op.i] \in O /\ op.j # op.i /\ sl[op.j] = 0 /\ op.o # 0
+       ELSE IF op.k = "drop" THEN sl[op.i] # 0
+       ELSE IF op.k = "mknull" THEN "null" \in Ext /\ sl[op.i] = 0
+       ELSE /\ sl[op.i] # 0 /\ sl[op.j] # 0
+            /\ (op.i = op.j => "self" \in Ext)
+    \* operations without any atomic step are explored only when the API extensions are switched on
+    /\ (Micro(op, sl) = <<>> => Ext # {}) }
 
-Init == /\ cnt = [o \in O |-> [k \in 1..K |-> NT]]
-        /\ alive = [o \in O |-> TRUE] /\ dtor = [o \in O |-> 0] /\ uaf = FALSE
+InitSlots == [s \in 1..NS |-> IF s <= NB THEN s ELSE 0]         \* every thread starts with one handle per existing object
+
+Init == /\ cnt = [o \in O |-> [k \in 1..K |-> IF o <= NB THEN NT + Cardinality(Parents(o)) ELSE 0]]
+        /\ st = [o \in O |-> IF o <= NB THEN "live" ELSE "unborn"]
+        /\ dtor = [o \in O |-> 0] /\ uaf = FALSE
         /\ slots = [t \in T |-> InitSlots]
         /\ phase = [t \in T |-> "entry"]
         /\ micro = [t \in T |-> <<>>]
-        /\ pend = [t \in T |-> [k |-> "none", i |-> 0, j |-> 0]]
+        /\ pend = [t \in T |-> [k |-> "none", i |-> 0, j |-> 0, o |-> 0]]
         /\ nops = [t \in T |-> 0]
+        /\ resv = {}
         /\ hist = <<>>
 
-\* effect of one atomic operation m = <<kind, o, k>>
-Apply(m) ==
-   LET o == m[2]  k == m[3]
-       v == IF m[1] = "inc" THEN cnt[o][k] + 1 ELSE cnt[o][k] - 1 IN
-   /\ uaf' = (uaf \/ ~alive[o] \/ (m[1] = "dec" /\ cnt[o][k] = 0))
-   /\ cnt' = [cnt EXCEPT ![o][k] = IF m[1] = "dec" /\ cnt[o][k] = 0 THEN 0 ELSE v]
-   /\ alive' = [alive EXCEPT ![o] = IF m[1] = "dec" /\ k = 1 /\ v = 0 THEN FALSE ELSE @]
-   /\ dtor' = [dtor EXCEPT ![o] = IF m[1] = "dec" /\ k = PayloadK /\ v = 0 THEN @ + 1 ELSE @]
-
 \* slot contents after operation op completes
-Done(op, sl) == IF op.k = "copy" THEN [sl EXCEPT ![op.j] = sl[op.i]]
-                ELSE IF op.k = "assign" THEN [sl EXCEPT ![op.i] = sl[op.j]]   \* (sl[op.i] was vacated by Begin)
-                ELSE sl
+Target(op) == IF op.k \in {"assign", "mknull", "drop"} THEN op.i ELSE op.j
+Done(op, sl) == IF op.k = "none" THEN sl ELSE [sl EXCEPT ![Target(op)] = op.o]
 \* slot contents while op is in progress (the handle being released no longer counts as a live handle)
 Begin(op, sl) == IF op.k \in {"drop", "assign"} THEN [sl EXCEPT ![op.i] = 0] ELSE sl
 
-\* thread t, whose slots are sl and which has just finished an operation (or just started), picks what to do next
-Choose(t, sl, rec) ==
+Flags(f) == [o \in O |-> IF f[o] THEN 1 ELSE 0]
+Rec(t, k, i, j, o, m, sl) == [t |-> t, k |-> k, i |-> i, j |-> j, o |-> o, m |-> m, s |-> sl,
+                              d |-> [x \in O |-> dtor'[x]], f |-> Flags([x \in O |-> st'[x] = "freed"]),
+                              b |-> Flags([x \in O |-> st'[x] # "unborn"])]
+
+\* thread t, whose slots are sl and which has just finished an operation (or just started), picks what to do next;
+\* r = the reservations left by the step that is being completed
+Choose(t, sl, r) ==
    \/ /\ nops[t] < MaxOps
       /\ \E op \in ValidOps(sl) :
            /\ micro' = [micro EXCEPT ![t] = Micro(op, sl)]
@@ -82,41 +139,83 @@ Choose(t, sl, rec) ==
            /\ slots' = [slots EXCEPT ![t] = Begin(op, sl)]
            /\ phase' = [phase EXCEPT ![t] = "run"]
            /\ nops' = [nops EXCEPT ![t] = @ + 1]
-           /\ hist' = Append(hist, [t |-> t, k |-> op.k, i |-> op.i, j |-> op.j, d |-> [o \in O |-> dtor'[o]]])
+           /\ resv' = IF op.k = "clone" THEN r \cup {op.o} ELSE r
+           /\ hist' = Append(hist, Rec(t, op.k, op.i, op.j, op.o, Len(Micro(op, sl)), sl))
    \/ /\ micro' = [micro EXCEPT ![t] = <<>>]
-      /\ pend' = [pend EXCEPT ![t] = [k |-> "none", i |-> 0, j |-> 0]]
+      /\ pend' = [pend EXCEPT ![t] = [k |-> "none", i |-> 0, j |-> 0, o |-> 0]]
       /\ slots' = [slots EXCEPT ![t] = sl]
       /\ phase' = [phase EXCEPT ![t] = "exit"]
+      /\ resv' = r
       /\ UNCHANGED nops
-      /\ hist' = Append(hist, [t |-> t, k |-> "exit", i |-> 0, j |-> 0, d |-> [o \in O |-> dtor'[o]]])
+      /\ hist' = Append(hist, Rec(t, "exit", 0, 0, 0, 0, sl))
 
 Start(t) == /\ phase[t] = "entry"
-            /\ UNCHANGED <<cnt, alive, dtor, uaf>>
-            /\ Choose(t, slots[t], 0)
-Atomic(t) == /\ phase[t] = "run" /\ micro[t] # <<>>
-             /\ Apply(Head(micro[t]))
-             /\ IF Len(micro[t]) > 1
-                THEN /\ micro' = [micro EXCEPT ![t] = Tail(@)]
-                     /\ UNCHANGED <<slots, phase, pend, nops>>
-                     /\ hist' = Append(hist, [t |-> t, k |-> "step", i |-> 0, j |-> 0, d |-> [o \in O |-> dtor'[o]]])
-                ELSE Choose(t, Done(pend[t], slots[t]), 0)
+            /\ UNCHANGED <<cnt, st, dtor, uaf>>
+            /\ Choose(t, slots[t], resv)
+
+\* one atomic increment / decrement and what the thread does with its result
+Atomic(t) ==
+   /\ phase[t] = "run" /\ micro[t] # <<>>
+   /\ LET m == Head(micro[t])  a == m[1]  o == m[2]  k == m[3]  fr == m[4]
+          creating == a = "inc" /\ st[o] = "unborn"       \* the creator of a clone takes the first reference
+          zero == a = "dec" /\ cnt[o][k] = 1
+          kids == IF zero /\ k = 1 THEN Kids(o) ELSE <<>>
+          \* the thread that brought a container to zero destroys its elements (their handles) and then frees the block
+          casc == [n \in 1..Len(kids) |-> <<"dec", kids[n], 1, IF n = Len(kids) THEN <<o>> \o fr ELSE <<>> >>]
+          freed == IF zero /\ k = 1 THEN (IF kids = <<>> THEN {o} \cup SeqSet(fr) ELSE {}) ELSE SeqSet(fr)
+          rest == casc \o Tail(micro[t])
+      IN
+      /\ uaf' = (uaf \/ (~creating /\ st[o] # "live") \/ (a = "dec" /\ cnt[o][k] = 0))
+      /\ cnt' = [cnt EXCEPT ![o][k] = IF a = "inc" THEN @ + 1 ELSE IF @ = 0 THEN 0 ELSE @ - 1]
+      /\ st' = [p \in O |-> IF p \in freed THEN "freed"
+                            ELSE IF p = o /\ creating THEN "live"
+                            ELSE IF p = o /\ zero /\ k = 1 THEN "dying"
+                            ELSE st[p]]
+      /\ dtor' = [dtor EXCEPT ![o] = IF zero /\ k = PayloadK THEN @ + 1 ELSE @]
+      /\ IF rest # <<>>
+         THEN /\ micro' = [micro EXCEPT ![t] = rest]
+              /\ resv' = IF creating THEN resv \ {o} ELSE resv
+              /\ UNCHANGED <<slots, phase, pend, nops>>
+              /\ hist' = Append(hist, Rec(t, "step", 0, 0, 0, 0, slots[t]))
+         ELSE Choose(t, Done(pend[t], slots[t]), IF creating THEN resv \ {o} ELSE resv)
+
+\* an operation that performs no atomic step at all (null handles, Shared<T> assignment within one object, a = a, and
+\* Shared<T>::clone, which creates the new object with its counter at 1)
+Silent(t) ==
+   /\ phase[t] = "run" /\ micro[t] = <<>>
+   /\ LET op == pend[t]  new == op.k = "clone" IN
+      /\ cnt' = IF new THEN [cnt EXCEPT ![op.o] = [k \in 1..K |-> 1]] ELSE cnt
+      /\ st' = IF new THEN [st EXCEPT ![op.o] = "live"] ELSE st
+      /\ UNCHANGED <<dtor, uaf>>
+      /\ Choose(t, Done(op, slots[t]), IF new THEN resv \ {op.o} ELSE resv)
+
 Exit(t) == /\ phase[t] = "exit"
            /\ phase' = [phase EXCEPT ![t] = "done"]
-           /\ UNCHANGED <<cnt, alive, dtor, uaf, slots, micro, pend, nops>>
-           /\ hist' = Append(hist, [t |-> t, k |-> "end", i |-> 0, j |-> 0, d |-> [o \in O |-> dtor[o]]])
+           /\ UNCHANGED <<cnt, st, dtor, uaf, slots, micro, pend, nops, resv>>
+           /\ hist' = Append(hist, Rec(t, "end", 0, 0, 0, 0, slots[t]))
 
-Next == \E t \in T : Start(t) \/ Atomic(t) \/ Exit(t)
+Next == \E t \in T : Start(t) \/ Atomic(t) \/ Silent(t) \/ Exit(t)
 Spec == Init /\ [][Next]_vars
 
 -------------------------------------------------------------------------------
-Handles(o) == Cardinality({<<t, s>> \in T \X (1..NS) : slots[t][s] = o})
+\* handles to o: the threads' own ones plus those embedded in live containers
+Direct(o) == Cardinality({<<t, s>> \in T \X (1..NS) : slots[t][s] = o})
+Handles(o) == Direct(o) + Cardinality({p \in Parents(o) : st[p] = "live"})
 NoUseAfterFree == ~uaf
-AliveWhileHandles == \A o \in O : Handles(o) > 0 => (alive[o] /\ dtor[o] = 0)
+AliveWhileHandles == \A o \in O : Handles(o) > 0 => (st[o] = "live" /\ dtor[o] = 0)
 DestroyedOnce == \A o \in O : dtor[o] <= 1
-Quiescent == \A t \in T : micro[t] = <<>>
+Quiescent == \A t \in T : phase[t] # "run"
 CountsMatch == Quiescent => \A o \in O : \A k \in 1..K : cnt[o][k] = Handles(o)
-ReleasedWithLastHandle == Quiescent => \A o \in O : (Handles(o) = 0) = (dtor[o] = 1 /\ ~alive[o])
+ReleasedWithLastHandle == Quiescent => \A o \in O : st[o] # "unborn" => ((Handles(o) = 0) = (dtor[o] = 1 /\ st[o] = "freed"))
+\* nobody is left half destroyed: whoever starts destroying a container finishes the subtree within its own operation
+NoHalfDestroyed == Quiescent => \A o \in O : st[o] # "dying"
+\* a live container's elements are live
+SubtreeAlive == \A o \in O : st[o] = "live" => \A c \in SeqSet(Kids(o)) : st[c] = "live"
 
-View == <<cnt, alive, dtor, uaf, slots, phase, micro, pend, nops, Len(hist)>>
-Emit == PrintT(ToJson([type |-> Type, nt |-> NT, no |-> NO, ns |-> NS, steps |-> hist']))
+View == <<cnt, st, dtor, uaf, slots, phase, micro, pend, nops, resv, Len(hist)>>
+Emit == PrintT(ToJson([type |-> Type, nt |-> NT, no |-> NO, nb |-> NB, ns |-> NS, shape |-> Shape, steps |-> hist']))
+\* complete executions only (the replayer compares after every step, so the prefixes are covered by them)
+EmitFinal == IF \A t \in T : phase'[t] = "done"
+             THEN PrintT(ToJson([type |-> Type, nt |-> NT, no |-> NO, nb |-> NB, ns |-> NS, shape |-> Shape, steps |-> hist']))
+             ELSE TRUE
 ===============================================================================
